@@ -25,7 +25,7 @@ THEOREMS = [
 LEAN_MODULES = ["PorepyVerif.C30.Props"]
 AUDIT = "PorepyVerif/C30/Audit.lean"
 DRIVER = "PorepyVerif/C30/Driver.lean"
-N = {"quick": 400, "thorough": 9000}
+N = {"quick": 400, "thorough": 50000}
 TOL_SS = F(1, 10**8)      # SMALL_TOLERANCE factor of segment_segment_set
 TOL_P = F(1, 10**5)       # default tol of points_polygon / segments_polygon
 RULE = ("one call of point_pointset / points_segments / segment_segment_set / segment_set / points_polygon / segments_polygon per case, "
@@ -34,7 +34,8 @@ RULE = ("one call of point_pointset / points_segments / segment_segment_set / se
         "perpendicular foot inside/at/outside the ends, zero-length segments (dedicated stream), a power-of-two rescaling stream "
         "(2^-20..2^12) for segment-segment; polygons: simple star-shaped (convex and non-convex, 3-7 vertices, both orientations) in the "
         "xy-plane or in a random integer frame, points above the interior / an edge / a vertex / outside / in the plane, segments "
-        "crossing, touching, parallel above, inside the plane; non-trivial = not (everything in general position: a placement class "
+        "crossing, touching, parallel above, inside the plane, aimed at the polygon but stopping short; pairs that are nearly but not exactly "
+        "parallel (0 < sin^2 < 1e-6, the kernel's tolerance band is 1e-8) are dropped and counted; non-trivial = not (everything in general position: a placement class "
         "other than 'random' was used or a polygon is non-convex); distinct = distinct cases")
 TRUSTED = [
     "modelled, not verified: numpy broadcasting / masking glue of the vectorised kernels, np.argmin tie order, np.ma comparisons",
@@ -367,7 +368,45 @@ def gen_poly_point(rng, p2, frame):
     return lift(frame, F(rng.randint(-10, 10), 2), F(rng.randint(-10, 10), 2), z), "random"
 
 
+DROPPED = {"knife-edge": 0}
+
+
+def _pairs(case):
+    """all (segment, segment) pairs the segment-segment kernel is applied to in this case"""
+    kind = case["kind"]
+    if kind == "segseg":
+        a = (dec(case["p0"]), dec(case["p1"]))
+        return [(a, s) for s in _segs(dict(case, k=0), "set")]
+    if kind == "segset":
+        sg = _segs(case, "segs")
+        return [(sg[i], sg[j]) for i in range(len(sg)) for j in range(i + 1, len(sg))]
+    if kind == "segpoly":
+        poly = _pts(case, "poly")
+        return [(s, (poly[i], poly[(i + 1) % len(poly)])) for s in _segs(case, "segs") for i in range(len(poly))]
+    return []
+
+
+def _knife_edge(case):
+    """a pair that is nearly, but not exactly, parallel (0 < sin^2 < 1e-6): inside or close to the tolerance band of the kernel"""
+    for (p0, p1), (q0, q1) in _pairs(case):
+        u, v = sub(p1, p0), sub(q1, q0)
+        a, b, c = nsq(u), dot(u, v), nsq(v)
+        D = a * c - b * b
+        if 0 < D < F(1, 10**6) * a * c:
+            return True
+    return False
+
+
 def gen_case(rng, tier):
+    """cases whose decisions are within 1e-6 (relative) of the kernel's parallel test are dropped and counted (DESIGN section 3)"""
+    while True:
+        c = _gen_case(rng, tier)
+        if not _knife_edge(c):
+            return c
+        DROPPED["knife-edge"] += 1
+
+
+def _gen_case(rng, tier):
     r = rng.random()
     nd = rng.choice([2, 3])
     if r < 0.07:
@@ -465,6 +504,19 @@ def gen_case(rng, tier):
             v = rvec(rng, 3, 2)
             a, b = sub(x, scl(F(rng.randint(0, 2)), v)), add(x, scl(F(rng.randint(0, 2)), v))
             tags.add("through-plane-point")
+        elif rr < 0.62:
+            # the carrier line hits the polygon's plane at x, but the segment stops short of it / starts beyond it
+            x, _ = gen_poly_point(rng, p2, frame)
+            nrm = cross(frame[1], frame[2])
+            x = sub(x, scl(dot(sub(x, poly[0]), nrm) / nsq(nrm), nrm))
+            v = add(rvec(rng, 3, 2), scl(F(rng.choice([1, 2, -1])), nrm))
+            if dot(v, nrm) == 0:
+                v = add(v, nrm)
+            k0, k1 = rng.choice([(1, 2), (1, 3), (2, 3), (-2, -1), (1, 4)])
+            a, b = add(x, scl(F(k0, 2), v)), add(x, scl(F(k1, 2), v))
+            if rng.random() < 0.5:
+                a, b = b, a
+            tags.add("aimed-short")
         else:
             a, _ = gen_poly_point(rng, p2, frame)
             b, _ = gen_poly_point(rng, p2, frame)
@@ -821,4 +873,4 @@ def stats(cases, impl_outs):
             tags[c["kind"] + ":" + t] = tags.get(c["kind"] + ":" + t, 0) + 1
     nan = sum(1 for o in impl_outs if "nan" in str(o))
     errs = sum(1 for o in impl_outs if isinstance(o, dict) and "err" in o)
-    return {"kinds": kinds, "dims": dims, "placement_tags": dict(sorted(tags.items())), "impl_outputs_with_nan": nan, "impl_exceptions": errs}
+    return {"dropped_knife_edge_cases": DROPPED["knife-edge"], "kinds": kinds, "dims": dims, "placement_tags": dict(sorted(tags.items())), "impl_outputs_with_nan": nan, "impl_exceptions": errs}
